@@ -276,7 +276,7 @@ PROPS = {
                        "true edge of e.key == key (GL1); insert writes one Element{key,val,hash} of its own arguments into "
                        "the slot that get reads, grow re-inserts whole triples (GL2); the adapter's hash is a function of "
                        "(f,g,h) only (GL5); callers use one key and one hash for lookup and insert (GL4). Not decided: the "
-                       "consequence for builder results (needs C01). Added: each ITE table files a result under the very key it looks it up by, for both Ite variants (GL8).",
+                       "consequence for builder results (needs C01). Added: each ITE table files a result under the very key it looks it up by, for both Ite variants (GL8); a persistent memo is keyed by every parameter used (GL9); cache accessors store the result unchanged (GL10); what is stored is what is returned (GL11).",
     },
     "C17": {
         "level": "other",
